@@ -236,7 +236,8 @@ def make_machine(ctx, state):
             if self.ex is not None:
                 self.ex.close()
             if self.case is not None and self.case["hist"]:
-                ctx.evaluations += 1
+                # every read / emulator step of the history is compared with the truth
+                ctx.evaluations += max(1, sum(1 for s_ in self.case["hist"] if s_["op"] in ("read", "emu")))
                 if len(ctx.samples) < 6 and len(self.case["hist"]) > 5:
                     ctx.samples.append(self.case)
 
